@@ -55,6 +55,64 @@ done:
 	return root, strings.Join(parts, ".")
 }
 
+// statPaths is statPath with pointer phis expanded: an address selected among several sibling fields yields
+// one (root, path) per alternative (nil alternatives dropped).
+func statPaths(v ssa.Value, getCS *ssa.Function, depth int) [][2]string {
+	var parts []string
+	for i := 0; i < 16; i++ {
+		switch x := v.(type) {
+		case *ssa.FieldAddr:
+			if ssax.FieldOwner(x) == "server.statsManager.totalStats" {
+				return [][2]string{{"G", strings.Join(parts, ".")}}
+			}
+			parts = append([]string{ssax.FieldOf(x).Name()}, parts...)
+			v = x.X
+			continue
+		case *ssa.UnOp:
+			if x.Op == token.MUL {
+				v = x.X
+				continue
+			}
+		case *ssa.Phi:
+			if depth > 3 {
+				return nil
+			}
+			var out [][2]string
+			seen := map[[2]string]bool{}
+			for _, e := range x.Edges {
+				if isNilConst(e) {
+					continue
+				}
+				for _, a := range statPaths(e, getCS, depth+1) {
+					if len(parts) > 0 {
+						if a[1] != "" {
+							a[1] += "."
+						}
+						a[1] += strings.Join(parts, ".")
+					}
+					if !seen[a] {
+						seen[a] = true
+						out = append(out, a)
+					}
+				}
+			}
+			return out
+		}
+		root, path := statPath(v, getCS)
+		if root == "" {
+			return nil
+		}
+		if len(parts) > 0 {
+			if path != "" {
+				path += "."
+			}
+			path += strings.Join(parts, ".")
+		}
+		return [][2]string{{root, path}}
+	}
+	return nil
+}
+
 // destPath renders the field path of a destination address inside a composite literal: nested
 // literals are built in locals that are then stored, as a whole, into their parent's field.
 func destPath(addr ssa.Value, depth int) string {
@@ -124,16 +182,23 @@ func c20(c *core.Ctx) {
 			default:
 				return
 			}
-			root, path := statPath(addr, getCS)
-			if root == "" {
+			alts := statPaths(addr, getCS, 0)
+			if len(alts) == 0 {
 				return
 			}
 			total++
 			b := in.Block()
+			if len(alts) > 1 {
+				// the address is selected among sibling fields (e.g. by a QoS switch in a helper): the
+				// alternatives are compared at function level, the selection itself is shared code
+				b = nil
+			}
 			if perBlock[b] == nil {
 				perBlock[b] = map[string][]string{}
 			}
-			perBlock[b][root] = append(perBlock[b][root], path+" "+what)
+			for _, a := range alts {
+				perBlock[b][a[0]] = append(perBlock[b][a[0]], a[1]+" "+what)
+			}
 		})
 		if total == 0 {
 			c.Violation("C20.R1", n+"|mirror", fpos(c, f), n+" no longer updates any counter")
@@ -148,7 +213,7 @@ func c20(c *core.Ctx) {
 			sort.Strings(cl)
 			if strings.Join(g, ";") != strings.Join(cl, ";") {
 				ok = false
-				if at == nil || b.Index < at.Index {
+				if at == nil || (b != nil && b.Index < at.Index) {
 					at = b
 					detail = fmt.Sprintf("global %v vs per-client %v", g, cl)
 				}
